@@ -318,6 +318,12 @@ pub fn c02_case(c: &Case, r: &mut Rng) -> CaseOut {
                         format!("{name}: accepted, then recompress_deflate_stream returned Err({:?})", e.exit_code()),
                     )),
                     Run::Done(Ok(y)) => {
+                        // the reconstruction side, line level: the model's byte-driven decoder
+                        // (`recompressBytes`) on the code's plaintext and correction BYTES must
+                        // return what the code's recompress_deflate_stream returned
+                        if name == "verify=false" && x.plain.len() <= 12000 && d.len() <= 8000 {
+                            out.requests.push((format!("recompress {} {}", hex(&x.plain), hex(&x.corr)), format!("ok {}", hex(&y))));
+                        }
                         if y[..] != d[..x.size] {
                             let at = y.iter().zip(d.iter()).position(|(p, q)| p != q).unwrap_or(y.len().min(x.size));
                             out.failures.push(fail(
